@@ -1206,6 +1206,8 @@ class Engine:
             return self.concat(a, b, st, node)
         if isinstance(a.ty, TTuple) and len(a.t) == 1 and isinstance(op, ast.Mult) and b.ty in (TInt, TBool):
             return self.repeat(a.t[0], self.as_int(b, st, node), st, node)
+        if isinstance(b.ty, TTuple) and len(b.t) == 1 and isinstance(op, ast.Mult) and a.ty in (TInt, TBool):
+            return self.repeat(b.t[0], self.as_int(a, st, node), st, node)  # n * (x,)
         if a.ty is TReal or b.ty is TReal or isinstance(op, ast.Div):
             x = a.t if a.ty is TReal else z3.ToReal(self.as_int(a, st, node))
             y = b.t if b.ty is TReal else z3.ToReal(self.as_int(b, st, node))
@@ -1317,6 +1319,18 @@ class Engine:
     def concat(self, a: Val, b: Val, st, node) -> Val:
         if isinstance(a.ty, TTuple) and isinstance(b.ty, TTuple):
             return Val(TTuple([x.ty for x in a.t + b.t]), a.t + b.t)
+        # a sequence of None (n * (None,)) joined with values of sort E is a sequence of Optional[E]
+        for x, y in ((a, b), (b, a)):
+            if isinstance(x.ty, TSeq) and isinstance(x.ty.elem, TNoneT):
+                ety = y.ty.elem if isinstance(y.ty, TSeq) else (y.t[0].ty if isinstance(y.ty, TTuple) and y.t else None)
+                if ety is not None and not isinstance(ety, TNoneT):
+                    oty = ety if isinstance(ety, TOpt) else TOpt(ety)
+                    sq = TSeq(oty)
+                    lifted = Val(sq, sq.mk(x.ty.len(x.t), z3.K(z3.IntSort(), oty.none())), x.mut)
+                    if x is a:
+                        a = lifted
+                    else:
+                        b = lifted
         if isinstance(a.ty, TTuple):
             a = self.coerce(a, b.ty, st, node)
         if isinstance(b.ty, TTuple):
